@@ -21,11 +21,13 @@ import (
 	"os"
 	"sort"
 	"strings"
+	"time"
 
 	pconfig "github.com/thushan/olla/internal/adapter/proxy/config"
 	"github.com/thushan/olla/internal/adapter/proxy/core"
 	"github.com/thushan/olla/internal/adapter/proxy/olla"
 	"github.com/thushan/olla/internal/adapter/proxy/sherpa"
+	"github.com/thushan/olla/internal/app/services"
 	"github.com/thushan/olla/internal/config"
 	"github.com/thushan/olla/internal/core/constants"
 	"github.com/thushan/olla/internal/zz_verif/vlib"
@@ -172,5 +174,19 @@ func main() {
 	f.Def("sherpaDisconnectNs", "Int", vlib.LeanInt(int64(sherpa.ClientDisconnectionTimeThreshold)), "sherpa.ClientDisconnectionTimeThreshold")
 	f.Def("ollaDisconnectBytes", "Int", vlib.LeanInt(int64(olla.ClientDisconnectionBytesThreshold)), "olla.ClientDisconnectionBytesThreshold")
 	f.Def("ollaDisconnectNs", "Int", vlib.LeanInt(int64(olla.ClientDisconnectionTimeThreshold)), "olla.ClientDisconnectionTimeThreshold")
+	// the wiring between the configuration file and the engines: which read timeout and which profile the engines
+	// are handed (GetReadTimeout / GetProxyProfile of what services.ProxyServiceWrapper builds) for a grid of
+	// proxy sections; response_timeout 0 is "disabled", the setting recommended for long generations
+	var wired []string
+	for _, resp := range []time.Duration{0, time.Second, 10 * time.Minute} {
+		for _, read := range []time.Duration{150 * time.Millisecond, 5 * time.Second, 90 * time.Second, 20 * time.Minute} {
+			for _, prof := range []string{"auto", "streaming", "standard"} {
+				pc := services.VerifProxyConfiguration(&config.ProxyConfig{Engine: "sherpa", Profile: prof, ResponseTimeout: resp, ReadTimeout: read, ConnectionTimeout: 30 * time.Second, StreamBufferSize: 8192}, vlib.QuietLogger())
+				wired = append(wired, vlib.LeanTuple(vlib.LeanInt(int64(resp)), vlib.LeanInt(int64(read)), vlib.LeanStr(prof), vlib.LeanInt(int64(pc.GetReadTimeout())), vlib.LeanStr(pc.GetProxyProfile())))
+			}
+		}
+	}
+	f.Def("wiredProxySettings", "List (Int × Int × String × Int × String)", vlib.LeanList(wired),
+		"(configured response_timeout ns, configured read_timeout ns, configured profile, read timeout the engines get, profile the engines get)")
 	f.Write(ns)
 }
